@@ -14,8 +14,7 @@ Qed.
 Lemma lset_eqb_eq a b : lset_eqb a b = true <-> a = b.
 Proof.
   revert b; induction a as [|x a IH]; intros [|y b]; cbn; try (split; congruence).
-  - split; auto.
-  - rewrite andb_true_iff, label_eqb_eq, IH. split; [intros [-> ->]; reflexivity | intros H; inversion H; auto].
+  rewrite andb_true_iff, label_eqb_eq, IH. split; [intros [-> ->]; reflexivity | intros H; inversion H; auto].
 Qed.
 
 Lemma lset_eqb_refl a : lset_eqb a a = true.
@@ -31,8 +30,7 @@ Qed.
 Lemma val_eqb_eq a b : val_eqb a b = true <-> a = b.
 Proof.
   destruct a, b; cbn; try (split; congruence).
-  - rewrite Z.eqb_eq. split; congruence.
-  - split; auto.
+  rewrite Z.eqb_eq. split; congruence.
 Qed.
 
 Lemma mem_In l ls : mem l ls = true <-> In l ls.
@@ -69,7 +67,7 @@ Proof.
     + destruct (lset_eqb l' l0); auto.
 Qed.
 
-Lemma admit_ok_push ss t v : admit ss t v = AOk -> exists rest, push ss t v = (t, v) :: rest.
+Lemma admission_ok_push ss t v : admission ss t v = AOk -> exists rest, push ss t v = (t, v) :: rest.
 Proof.
   destruct ss as [|[t0 v0] ss]; cbn; intros H.
   - eexists; reflexivity.
@@ -89,11 +87,11 @@ Qed.
 (* what one append does, in terms of the series' sample lists *)
 Lemma st_append_spec st l t v st' r :
   st_append st l t v = (st', r) ->
-  r = admit (samples st l) t v /\
+  r = admission (samples st l) t v /\
   (r = AOk -> samples st' l = push (samples st l) t v /\ forall l', l' <> l -> samples st' l' = samples st l') /\
   (r <> AOk -> st' = st).
 Proof.
-  unfold st_append. destruct (admit (samples st l) t v) eqn:E; intros H; inversion H; subst;
+  unfold st_append. destruct (admission (samples st l) t v) eqn:E; intros H; inversion H; subst;
     (split; [reflexivity|]); split; try congruence; intros _.
   split; [apply samples_put_same | intros; apply samples_put_other; auto].
 Qed.
@@ -115,7 +113,7 @@ Lemma st_append_ok_in st l t v st' : st_append st l t v = (st', AOk) -> In (t, v
 Proof.
   intros E. apply st_append_spec in E. destruct E as [Ha [Hok _]].
   destruct (Hok eq_refl) as [Hs _]. rewrite Hs.
-  destruct (admit_ok_push (samples st l) t v) as [rest Hr]; [congruence|]. rewrite Hr. left; reflexivity.
+  destruct (admission_ok_push (samples st l) t v) as [rest Hr]; [congruence|]. rewrite Hr. left; reflexivity.
 Qed.
 
 (* "the newest sample of series l is (qt, VNum z)" *)
@@ -126,7 +124,7 @@ Lemma st_append_ok_newest st l qt z st' : st_append st l qt (VNum z) = (st', AOk
 Proof.
   intros E. apply st_append_spec in E. destruct E as [Ha [Hok _]].
   destruct (Hok eq_refl) as [Hs _]. unfold newest. rewrite Hs.
-  apply admit_ok_push. congruence.
+  apply admission_ok_push. congruence.
 Qed.
 
 (* appends at the same timestamp never displace it *)
@@ -526,7 +524,8 @@ Proof.
   destruct (match_rules (build_map (g_rules from)) newrules) as [matched m']. cbn in *.
   apply in_or_app. right. apply in_flat_map. exists (r, p). split; auto. cbn.
   destruct (rm_get m' (rkey_of r)) eqn:E; auto.
-  exfalso. rewrite K in E. revert E. unfold build_map. apply build_map_has. left; exact Hin.
+  exfalso. symmetry in K. unfold build_map in K.
+  exact (build_map_has (g_rules from) [] r p (or_introl Hin) K).
 Qed.
 
 Lemma copy_state_keeps_stale newrules from l :
@@ -605,3 +604,192 @@ Proof.
 Qed.
 
 End WithQuery2.
+
+(* ------------------------------------------------------------------ the property lemmas *)
+Section Main.
+Variable qf : store -> expr -> Z -> vector.
+
+Lemma results_stored st r prev qt limit vec :
+  rule_eval qf st r qt limit = Some vec ->
+  exists st' log1 log2,
+    eval_rule qf st r prev qt limit = (st', written log1, Some (log1 ++ log2)) /\
+    map triple log1 = map (fun lz => (fst lz, qt, VNum (snd lz))) vec /\
+    (forall a, In a log2 -> rec_val a = VStale) /\
+    (forall a, In a (log1 ++ log2) -> rec_res a = AOk -> In (rec_ts a, rec_val a) (samples st' (rec_lbl a))).
+Proof.
+  intros H. destruct (eval_rule_ok qf st r prev qt limit vec H) as (st' & l1 & l2 & He & L1 & L2 & Hs & _).
+  exists st', l1, l2. repeat split; auto.
+  intros a Ha. assert (Hm : In (triple a) (map triple l2)) by (apply in_map; exact Ha).
+  rewrite L2 in Hm. apply in_map_iff in Hm. destruct Hm as [l0 [Hm _]]. unfold triple in Hm. inversion Hm. auto.
+Qed.
+
+Lemma results_named st r qt limit vec l z :
+  rule_eval qf st r qt limit = Some vec -> In (l, z) vec ->
+  ~ In name_label (map fst (r_labels r)) -> NoDup (map fst (r_labels r)) ->
+  lget l name_label = Some (r_name r) /\ forall k v, In (k, v) (r_labels r) -> lget l k = Some v.
+Proof.
+  intros H Hin Hn Hnd. apply rule_eval_vec in H. subst vec.
+  apply in_map_iff in Hin. destruct Hin as [[l0 z0] [E _]]. inversion E; subst. cbn.
+  split; [apply relabel_name; auto | intros; apply relabel_label; auto].
+Qed.
+
+Lemma stale_diff st r prev qt limit vec :
+  rule_eval qf st r qt limit = Some vec ->
+  exists st' log1 log2,
+    eval_rule qf st r prev qt limit = (st', written log1, Some (log1 ++ log2)) /\
+    map triple log1 = map (fun lz => (fst lz, qt, VNum (snd lz))) vec /\
+    map triple log2 = map (fun l => (l, qt, VStale)) (vanished prev (written log1)) /\
+    (forall l, In l (vanished prev (written log1)) <-> In l prev /\ ~ In l (written log1)).
+Proof.
+  intros H. destruct (eval_rule_ok qf st r prev qt limit vec H) as (st' & l1 & l2 & He & L1 & L2 & _).
+  exists st', l1, l2. split; [exact He|]. split; [exact L1|]. split; [exact L2|].
+  intros l. apply vanished_spec.
+Qed.
+
+Lemma order_dependency gid st qt limit pre r prev post :
+  exists st1 pre' ev1,
+    eval_rules qf gid st qt limit 0 pre = (st1, pre', ev1) /\
+    (exists rest, snd (eval_rules qf gid st qt limit 0 (pre ++ (r, prev) :: post)) =
+                  ev1 ++ EvRule gid (Z.of_nat (length pre)) (snd (eval_rule qf st1 r prev qt limit)) :: rest) /\
+    (forall j log a z, In (EvRule gid j (Some log)) ev1 -> In a log -> rec_res a = AOk -> rec_val a = VNum z ->
+        sel_sample (samples st1 (rec_lbl a)) qt = Some z).
+Proof.
+  pose proof (eval_rules_visible qf gid st qt limit 0 pre) as V.
+  rewrite eval_rules_app.
+  destruct (eval_rules qf gid st qt limit 0 pre) as [[st1 pre'] ev1].
+  exists st1, pre', ev1. split; [reflexivity|]. destruct V as [_ V2]. split.
+  - cbn [eval_rules]. rewrite Z.add_0_l.
+    destruct (eval_rule qf st1 r prev qt limit) as [[st2 prev2] apps].
+    destruct (eval_rules qf gid st2 qt limit (Z.of_nat (length pre) + 1) post) as [[st3 post'] ev2].
+    cbn. eexists. reflexivity.
+  - intros. apply sel_sample_newest. eapply V2; eauto.
+Qed.
+
+(* groups in the state *)
+Lemma find_set_same gs gid g : find_group (set_group gs gid g) gid = Some g.
+Proof.
+  induction gs as [|[i g0] gs IH]; cbn.
+  - rewrite Z.eqb_refl. reflexivity.
+  - destruct (i =? gid) eqn:E; cbn.
+    + rewrite Z.eqb_refl. reflexivity.
+    + rewrite E. exact IH.
+Qed.
+
+Lemma load_group_offset old rules off lim : g_offset (load_group old rules off lim) = off.
+Proof. unfold load_group. destruct old as [from|]; [destruct (copy_state rules from)|]; reflexivity. Qed.
+
+Lemma removed_rule_marked s gid from rules off lim r p l ts :
+  find_group (s_groups s) gid = Some from ->
+  In (r, p) (g_rules from) -> ~ In (rkey_of r) (map rkey_of rules) -> In l p ->
+  let s1 := fst (step qf s (OpLoad gid rules off lim)) in
+  let s2 := fst (step qf s1 (OpEval gid ts)) in
+  (exists log, In (EvCleanup gid log) (snd (step qf s1 (OpEval gid ts))) /\
+               In (l, ts - off, VStale) (map triple log) /\
+               (forall a, In a log -> rec_res a = AOk ->
+                          In (rec_ts a, rec_val a) (samples (s_store s2) (rec_lbl a)))) /\
+  (forall ts' g' log', ~ In (EvCleanup g' log') (snd (step qf s2 (OpEval gid ts')))).
+Proof.
+  intros Hf Hin Hnk Hl. cbn [step fst]. rewrite Hf. cbn [s_groups s_store].
+  rewrite find_set_same.
+  set (g1 := load_group (Some from) rules off lim).
+  assert (Hst : In l (g_stale g1)).
+  { unfold g1, load_group. pose proof (copy_state_removed rules from r p l Hin Hnk Hl) as K.
+    destruct (copy_state rules from) as [rs stale]. exact K. }
+  assert (Hoff : g_offset g1 = off) by apply load_group_offset.
+  pose proof (group_eval_marks qf gid (s_store s) g1 ts l Hst) as M.
+  pose proof (group_eval_no_cleanup qf gid) as N.
+  destruct (group_eval qf gid (s_store s) g1 ts) as [[st' g'] evs] eqn:E.
+  destruct M as (log & M1 & M2 & M3 & M4). cbn [fst snd s_groups s_store]. split.
+  - exists log. split; [exact M1|]. split; [|exact M3].
+    rewrite M2, Hoff. apply in_map with (f := fun l => (l, ts - off, VStale)). exact Hst.
+  - intros ts' g'' log'. rewrite find_set_same.
+    specialize (N st' g' ts' g'' log' M4).
+    destruct (group_eval qf gid st' g' ts') as [[st3 g3] evs3]. exact N.
+Qed.
+
+Lemma removed_group_marked s gid g ts l r p :
+  find_group (s_groups s) gid = Some g -> In (r, p) (g_rules g) -> In l p ->
+  let s' := fst (step qf s (OpRemove gid ts)) in
+  exists log, snd (step qf s (OpRemove gid ts)) = [EvCleanup gid log] /\
+              map triple log = map (fun l => (l, ts - g_offset g, VStale)) (g_stale g ++ flat_map snd (g_rules g)) /\
+              In (l, ts - g_offset g, VStale) (map triple log) /\
+              (forall a, In a log -> rec_res a = AOk -> In (rec_ts a, rec_val a) (samples (s_store s') (rec_lbl a))) /\
+              find_group (s_groups s') gid = None.
+Proof.
+  intros Hf Hin Hl. cbn [step]. rewrite Hf.
+  assert (Hall : In l (g_stale g ++ flat_map snd (g_rules g))).
+  { apply in_or_app. right. apply in_flat_map. exists (r, p). auto. }
+  destruct (g_stale g ++ flat_map snd (g_rules g)) as [|l0 ls] eqn:Es; [destruct Hall|].
+  destruct (cleanup_cons gid (s_store s) l0 ls (ts - g_offset g)) as (st' & log & Hc & Hm & Hs).
+  rewrite Hc. cbn [fst snd s_store s_groups]. exists log. split; [reflexivity|]. split; [exact Hm|].
+  split; [rewrite Hm; apply in_map with (f := fun l => (l, ts - g_offset g, VStale)); exact Hall|].
+  split; [exact Hs|].
+  unfold del_group. clear. induction (s_groups s) as [|[i g0] gs IH]; cbn; auto.
+  destruct (i =? gid) eqn:E; cbn; auto. rewrite E. exact IH.
+Qed.
+
+(* the store is append-only over whole histories *)
+Lemma eval_rules_keeps gid st qt limit i rules s l :
+  In s (samples st l) -> In s (samples (fst (fst (eval_rules qf gid st qt limit i rules))) l).
+Proof.
+  revert st i. induction rules as [|[r prev] rules IH]; intros st i H; cbn [eval_rules]; auto.
+  pose proof (eval_rule_keeps qf st r prev qt limit) as K.
+  destruct (eval_rule qf st r prev qt limit) as [[st1 prev1] apps]. cbn in K. destruct K as [K _].
+  specialize (IH st1 (i + 1) (K _ _ H)).
+  destruct (eval_rules qf gid st1 qt limit (i + 1) rules) as [[st2 rs2] evs]. exact IH.
+Qed.
+
+Lemma cleanup_keeps gid st stale qt s l : In s (samples st l) -> In s (samples (fst (cleanup gid st stale qt)) l).
+Proof.
+  intros H. unfold cleanup. destruct stale as [|l0 ls]; auto.
+  pose proof (append_stale_keeps st (l0 :: ls) qt s l H) as K.
+  destruct (append_stale st (l0 :: ls) qt) as [st' log]. exact K.
+Qed.
+
+Lemma step_keeps s o x l : In x (samples (s_store s) l) -> In x (samples (s_store (fst (step qf s o))) l).
+Proof.
+  intros H. destruct o as [l0 t v | gid rules off lim | gid ts | gid ts]; cbn [step].
+  - pose proof (st_append_keeps (s_store s) l0 t v x l H) as K.
+    destruct (st_append (s_store s) l0 t v) as [st' r]. exact K.
+  - exact H.
+  - destruct (find_group (s_groups s) gid) as [g|]; auto.
+    unfold group_eval.
+    pose proof (eval_rules_keeps gid (s_store s) (ts - g_offset g) (g_limit g) 0 (g_rules g) x l H) as K.
+    destruct (eval_rules qf gid (s_store s) (ts - g_offset g) (g_limit g) 0 (g_rules g)) as [[st1 rs] evs].
+    pose proof (cleanup_keeps gid st1 (g_stale g) (ts - g_offset g) x l K) as K2.
+    destruct (cleanup gid st1 (g_stale g) (ts - g_offset g)) as [st2 evc]. exact K2.
+  - destruct (find_group (s_groups s) gid) as [g|]; auto.
+    pose proof (cleanup_keeps gid (s_store s) (g_stale g ++ flat_map snd (g_rules g)) (ts - g_offset g) x l H) as K.
+    destruct (cleanup gid (s_store s) (g_stale g ++ flat_map snd (g_rules g)) (ts - g_offset g)) as [st' evs]. exact K.
+Qed.
+
+Lemma run_from_keeps s ops x l :
+  In x (samples (s_store s) l) -> In x (samples (s_store (fst (run_from qf s ops))) l).
+Proof.
+  revert s. induction ops as [|o ops IH]; intros s H; cbn [run_from]; auto.
+  pose proof (step_keeps s o x l H) as K.
+  destruct (step qf s o) as [s1 e1]. specialize (IH s1 K).
+  destruct (run_from qf s1 ops) as [s2 e2]. exact IH.
+Qed.
+
+Lemma run_from_app s a b :
+  run_from qf s (a ++ b) =
+  let (s1, e1) := run_from qf s a in let (s2, e2) := run_from qf s1 b in (s2, e1 ++ e2).
+Proof.
+  revert s. induction a as [|o a IH]; intros s; cbn [app run_from].
+  - destruct (run_from qf s b). reflexivity.
+  - destruct (step qf s o) as [s1 e1]. rewrite IH.
+    destruct (run_from qf s1 a) as [s2 e2]. destruct (run_from qf s2 b) as [s3 e3].
+    rewrite app_assoc. reflexivity.
+Qed.
+
+Lemma history_append_only ops1 ops2 x l :
+  In x (samples (s_store (fst (run qf ops1))) l) -> In x (samples (s_store (fst (run qf (ops1 ++ ops2)))) l).
+Proof.
+  unfold run. rewrite run_from_app. intros H.
+  destruct (run_from qf init ops1) as [s1 e1].
+  pose proof (run_from_keeps s1 ops2 x l H) as K.
+  destruct (run_from qf s1 ops2) as [s2 e2]. exact K.
+Qed.
+
+End Main.
